@@ -126,6 +126,10 @@ func (v Val) Src() string {
 		return srcString(v.S)
 	case VBytes:
 		return "b" + srcString(v.S)
+	case VTime:
+		return "fn:time:from_unix_nanos(" + strconv.FormatInt(v.N, 10) + ")"
+	case VDur:
+		return "fn:duration:from_nanos(" + strconv.FormatInt(v.N, 10) + ")"
 	case VList:
 		var parts []string
 		for _, e := range v.Elems {
